@@ -114,6 +114,39 @@ def constructMany (obj : Option (List Rat)) : List Nat → List (List Rat) × Op
 def constructOld (obj : Option (List Rat)) (ncol : Nat) : List Rat × Option (List Rat) :=
   (resolveBody obj ncol, some (resolveBody obj ncol))
 
+/-! ### sections of ONE document that list the same body object
+
+`rtf_body` of a multi-section document is a list of REFERENCES: `rtf_body=[body] * n` lists one caller-owned object
+for every section.  `objs` is the store of the distinct body objects (their `col_rel_width` as configured), a section
+is `(index of its body object in the store, column count of its frame)`.  The multi-section branch of
+`RTFDocument.__init__` calls `_resolve_body_widths(section_body, section_df.shape[1])` once PER SECTION, each call is
+one `construct` step on the object the section references. -/
+
+/-- a reference outside the store stands for an object without widths -/
+def objAt (objs : List (Option (List Rat))) (r : Nat) : Option (List Rat) := objs.getD r none
+
+/-- → (the widths each section of the document holds, the store afterwards) -/
+def constructSections (objs : List (Option (List Rat))) :
+    List (Nat × Nat) → List (List Rat) × List (Option (List Rat))
+  | [] => ([], objs)
+  | (r, n) :: rest =>
+    let (w, obj') := construct (objAt objs r) n
+    let (ws, objsEnd) := constructSections (objs.set r obj') rest
+    (w :: ws, objsEnd)
+
+/-- NOT the code: resolution once per DISTINCT object (memo on the reference), every later section that lists the same
+object gets the vector resolved for the first one.  Kept for the record of what the per-section call is there for
+(`C08_sections_memo_witness`). -/
+def constructSectionsMemo (objs : List (Option (List Rat))) (memo : List (Nat × List Rat)) :
+    List (Nat × Nat) → List (List Rat)
+  | [] => []
+  | (r, n) :: rest =>
+    match memo.lookup r with
+    | some w => w :: constructSectionsMemo objs memo rest
+    | none =>
+      let w := resolveBody (objAt objs r) n
+      w :: constructSectionsMemo objs ((r, w) :: memo) rest
+
 /-! ## column removal -/
 
 /-- entries of `l` whose column is still displayed (`zip` semantics: stops at the shorter list) -/
